@@ -58,6 +58,13 @@ func (g *rig) hook(t litefs.LockType, prev, next litefs.RWMutexState) {
 	}
 }
 
+// attach: a new connection continues the log where it stands (it restarts it only when nothing is left in it)
+func (g *rig) attach() {
+	if g.h.WALMode {
+		g.h.Pager.AttachWAL(uint32(g.r.U64()), uint32(g.r.U64()))
+	}
+}
+
 func (g *rig) record() {
 	p := g.db.Pos()
 	g.mu.Lock()
@@ -65,7 +72,12 @@ func (g *rig) record() {
 	g.mu.Unlock()
 }
 
-func (g *rig) commit() (bool, string) {
+func (g *rig) commit() (bool, string) { return g.commitSized(false) }
+
+// commitSized: with sameSize the transaction keeps the database's page count (the steered cases are compared with a
+// model in which an interfering commit changes pages, not the size: a shrinking commit followed by a checkpoint cuts the
+// file under the stopped reader, which then fails with a read error instead of completing)
+func (g *rig) commitSized(sameSize bool) (bool, string) {
 	for tries := 0; tries < 80; tries++ {
 		st := g.h.GenStep()
 		if st.Op != "rtx" && st.Op != "wtx" {
@@ -73,6 +85,30 @@ func (g *rig) commit() (bool, string) {
 		}
 		if st.Op == "rtx" {
 			st.Outcome, st.ToWAL = 0, false
+		}
+		if sameSize {
+			cur := uint32(len(g.h.Ref.Pages))
+			st.NewSize, st.Spill, st.Aborted = cur, 0, nil
+			for pg := range st.Writes {
+				if pg > cur {
+					delete(st.Writes, pg)
+				}
+			}
+			if st.Op == "rtx" && len(st.Writes) == 0 {
+				st.Writes = map[uint32]uint64{cur: 4242 + uint64(tries)}
+			}
+			var fr [][2]uint64
+			for _, f := range st.Frames {
+				if uint32(f[0]) <= cur {
+					fr = append(fr, f)
+				}
+			}
+			if st.Op == "wtx" {
+				if len(fr) == 0 {
+					fr = [][2]uint64{{uint64(cur), 4242 + uint64(tries)}}
+				}
+				st.Frames = fr
+			}
 		}
 		ob := g.h.Exec(st)
 		// a writer that gives up at the EXCLUSIVE step rolls back by finalising its journal: LiteFS records
@@ -93,6 +129,7 @@ func newRig(c *common.Ctx, r *common.Rand, dir string, wal bool) (*rig, error) {
 	}
 	g := &rig{c: c, r: r, node: n, ps: []int{512, 1024}[r.Intn(2)], images: map[posT]*lfs.Image{}, hit: make(chan struct{}, 1), resume: make(chan struct{}, 1)}
 	g.h = hist.NewOn(c, r.Fork(), hist.Config{PageSize: g.ps, AllowWAL: wal, ForceWAL: wal}, n.Store, n.Exits, "db", nil, 0, false)
+	g.attach()
 	for i := 0; i < 4; i++ {
 		for tries := 0; tries < 80; tries++ {
 			st := g.h.GenStep()
@@ -221,6 +258,7 @@ func steered(c *common.Ctx, cf *common.CaseFile, r *common.Rand, wal bool) error
 					return fmt.Errorf("checkpoint: %v", err)
 				}
 				g.h = hist.NewOn(c, r.Fork(), hist.Config{PageSize: g.ps, AllowWAL: wal, ForceWAL: wal}, g.node.Store, g.node.Exits, "db", g.h.Ref, uint64(g.db.Pos().TXID), g.h.WALMode)
+				g.attach()
 				atomic.StoreInt32(&g.count, 0)
 				atomic.StoreInt32(&g.trapAt, int32(k))
 				atomic.StoreInt32(&g.counting, 1)
@@ -239,7 +277,7 @@ func steered(c *common.Ctx, cf *common.CaseFile, r *common.Rand, wal bool) error
 				if trapped {
 					lfs.BusyTimeout = 40 * time.Millisecond
 					if interference&1 != 0 {
-						committed, _ = g.commit()
+						committed, _ = g.commitSized(true)
 					}
 					if interference&2 != 0 {
 						cctx, cancel := context.WithTimeout(bg, 60*time.Millisecond)
@@ -263,6 +301,7 @@ func steered(c *common.Ctx, cf *common.CaseFile, r *common.Rand, wal bool) error
 				// the interfering writer may have left the runner's reference behind a failed attempt
 				if !committed {
 					g.h = hist.NewOn(c, r.Fork(), hist.Config{PageSize: g.ps, AllowWAL: wal, ForceWAL: wal}, g.node.Store, g.node.Exits, "db", g.h.Ref, uint64(g.db.Pos().TXID), g.h.WALMode)
+					g.attach()
 				}
 			}
 		}
@@ -374,11 +413,13 @@ func midstream(c *common.Ctx, r *common.Rand) error {
 			c.Distinct("midstream:" + kind)
 			if !committed {
 				g.h = hist.NewOn(c, r.Fork(), hist.Config{PageSize: g.ps, AllowWAL: true, ForceWAL: true}, g.node.Store, g.node.Exits, "db", g.h.Ref, uint64(g.db.Pos().TXID), g.h.WALMode)
+				g.attach()
 			}
 		}
 		if round%3 == 2 {
 			_ = g.db.Checkpoint(bg)
 			g.h = hist.NewOn(c, r.Fork(), hist.Config{PageSize: g.ps, AllowWAL: true, ForceWAL: true}, g.node.Store, g.node.Exits, "db", g.h.Ref, uint64(g.db.Pos().TXID), g.h.WALMode)
+			g.attach()
 		}
 	}
 	return nil
@@ -432,6 +473,7 @@ func free(c *common.Ctx, r *common.Rand, wal bool, d time.Duration) error {
 			_ = g.db.Checkpoint(cctx)
 			cancel()
 			g.h = hist.NewOn(c, r.Fork(), hist.Config{PageSize: g.ps, AllowWAL: wal, ForceWAL: wal}, g.node.Store, g.node.Exits, "db", g.h.Ref, uint64(g.db.Pos().TXID), g.h.WALMode)
+			g.attach()
 			n++
 		}
 	}
@@ -471,6 +513,7 @@ func quiescent(c *common.Ctx, r *common.Rand) error {
 	defer n.Close()
 	g := &rig{c: c, r: r, node: n, ps: 512, images: map[posT]*lfs.Image{}, hit: make(chan struct{}, 1), resume: make(chan struct{}, 1)}
 	g.h = hist.NewOn(c, r.Fork(), hist.Config{PageSize: 512, AllowWAL: true}, n.Store, n.Exits, "db", nil, 0, false)
+	g.attach()
 	script := []hist.Step{
 		{Op: "rtx", Writes: map[uint32]uint64{1: 1, 2: 2, 3: 3, 4: 4, 5: 5, 6: 6}, NewSize: 6, ToWAL: true},
 		{Op: "wtx", Frames: [][2]uint64{{2, 12}, {3, 13}, {4, 14}}, NewSize: 6},
